@@ -457,6 +457,14 @@ class Interp:
         """narrow `state` assuming BoolV b == truth; returns False if that is impossible"""
         if b.val is not None:
             return b.val == truth
+        g = b.tg if truth else b.fg
+        if g:
+            if not self.install_guard(state, g):
+                return False
+            for bv, tr in g.get("then", ()):
+                if not self.refine(state, bv, tr):
+                    return False
+                self.note_branch(state, bv, tr)
         if b.bit is not None and b.bit != TBIT and not bit_is_const(b.bit) and b.bit[0] == "b":
             n = b.bit[1]
             want = 1 if truth else 0
@@ -600,6 +608,85 @@ class Interp:
         s = State()
         s.stack = list(a.stack)
         cd = a.ctl_deps() | b.ctl_deps() if (a.ctl or b.ctl) else None
+        _jkb = {k: v for k, v in a.kb.items() if b.kb.get(k) == v}
+        _jpc = a.pc & b.pc
+        _deltas = {}
+
+        def delta(stx):
+            k = id(stx)
+            if k not in _deltas:
+                g = {}
+                dk = {x: v for x, v in stx.kb.items() if _jkb.get(x) != v}
+                if dk:
+                    g["kb"] = dk
+                dc = {}
+                for x, (lo, hi) in stx.cons.items():
+                    o1, o2 = a.cons.get(x), b.cons.get(x)
+                    if o1 is None or o2 is None or (min(o1[0], o2[0]), max(o1[1], o2[1])) != (lo, hi):
+                        dc[x] = (lo, hi)
+                if dc:
+                    g["cons"] = dc
+                dp = stx.pc - _jpc
+                if dp:
+                    g["pc"] = dp
+                _deltas[k] = g
+            return _deltas[k]
+
+        def bool_guards(va, vb, j):
+            """truth guards of a flag merged from two paths: what held on the path(s) that can deliver each truth value"""
+            if not (isinstance(j, BoolV) and isinstance(va, BoolV) and isinstance(vb, BoolV)) or j.val is not None:
+                return j
+            from .domain import join_guard, merge_guard
+            out = []
+            for truth in (True, False):
+                sides = []
+                for v, stx in ((va, a), (vb, b)):
+                    if v.val is not None and v.val != truth:
+                        continue            # this side never delivers `truth`
+                    g = merge_guard((v.tg if truth else v.fg) or {}, delta(stx))
+                    if v.val is None and (v.origin is not None or v.tg or v.fg or v.term is not None):
+                        g = merge_guard(g, {"then": ((v, truth),)})
+                    sides.append(g)
+                if len(sides) == 1:
+                    out.append(sides[0] or None)
+                elif len(sides) == 2:
+                    out.append(join_guard(sides[0], sides[1]) or None)
+                else:
+                    out.append(None)
+            tg, fg = out
+            if _geq(tg, j.tg) and _geq(fg, j.fg):
+                return j
+            return BoolV(j.val, j.origin, j.deps, j.term, j.bit, tg, fg)
+
+        def enum_guards(va, vb, j):
+            """variant guards of an Option/Result merged from two paths: a variant that only one path can deliver keeps what
+            held on that path (so that `let Some(x) = helper() else ..` in the caller gets the helper's checks back)"""
+            if not (isinstance(j, EnumV) and isinstance(va, EnumV) and isinstance(vb, EnumV)) or len(j.variants) < 2:
+                return j
+            if not (delta(a) or delta(b)):
+                return j
+            from .domain import join_guard, merge_guard
+            nv = {}
+            chg = False
+            for n, (pl, g0) in j.variants.items():
+                sides = []
+                for v, stx in ((va, a), (vb, b)):
+                    if n in v.variants:
+                        sides.append(merge_guard({k: x for k, x in v.variants[n][1].items() if k != "deps"}, delta(stx)))
+                if not sides:
+                    nv[n] = (pl, g0)
+                    continue
+                g = sides[0] if len(sides) == 1 else join_guard(sides[0], sides[1])
+                g = dict(g)
+                if g0.get("deps"):
+                    g["deps"] = g0["deps"]
+                if g0.get("bit") is not None and len(sides) == 1:
+                    g["bit"] = g0["bit"]
+                if not (_geq(g, g0) and g.get("deps") == g0.get("deps")):
+                    chg = True
+                nv[n] = (pl, g)
+            return EnumV(j.adt, nv) if chg else j
+
         for fid in a.stack:
             la, lb = a.fr[fid], b.fr.get(fid, {})
             out = {}
@@ -619,6 +706,12 @@ class Interp:
                         j = va
                 else:
                     j = self.vjoin(va, vb, gj, cd)
+                if isinstance(j, BoolV) and j.val is None:
+                    j = bool_guards(va, vb, j)
+                elif isinstance(j, EnumV):
+                    j2 = enum_guards(va, vb, j)
+                    if j2 is not j:
+                        j = j2 if not (j is va and all(_geq(j2.variants[n][1], va.variants[n][1]) for n in j2.variants)) else va
                 if j is not va and not (_same_modulo_deps(j, va)):
                     changed = True
                     j = _assign_sids(j)
@@ -846,6 +939,8 @@ class Interp:
         v = self.get_path(state, cell, path)
         if isinstance(v, _Variant):
             v = TupleV(v.payload)
+        if isinstance(v, TupleV) and len(v.items) <= 4:
+            return self.resolve_deep(state, v)      # a small tuple copied as a whole keeps what the branches learnt about its items
         return self.resolve(state, v)
 
     def eval_promoted(self, state, defname, idx):
@@ -1126,25 +1221,30 @@ class Interp:
             for (tgt, ost) in outs:
                 if tgt == "return":
                     rv0 = ost.fr[fid].get(0)
-                    if isinstance(rv0, EnumV) and len(rv0.variants) == 1:
-                        # remember under which facts THIS path produced its variant (restored when the caller matches on it)
-                        n0, (pl0, g0) = list(rv0.variants.items())[0]
-                        g = dict(g0)
+                    if isinstance(rv0, EnumV) and rv0.variants:
+                        # remember under which facts THIS path produced its variant(s) (restored when the caller matches on them)
                         dk = {b: v for b, v in ost.kb.items() if entry_kb.get(b) != v}
-                        if dk:
-                            kk = dict(g.get("kb", {}))
-                            kk.update(dk)
-                            g["kb"] = kk
                         dc = {k: v for k, v in ost.cons.items() if entry_cons.get(k) != v}
-                        if dc:
-                            cc = dict(g.get("cons", {}))
-                            cc.update(dc)
-                            g["cons"] = cc
                         dp = ost.pc - entry_pc
-                        if dp:
-                            g["pc"] = frozenset(g.get("pc", frozenset())) | dp
-                        if g != g0:
-                            ost.fr[fid][0] = EnumV(rv0.adt, {n0: (pl0, g)})
+                        nv = {}
+                        chg = False
+                        for n0, (pl0, g0) in rv0.variants.items():
+                            g = dict(g0)
+                            if dk:
+                                kk = dict(dk)
+                                kk.update(g.get("kb", {}))
+                                g["kb"] = kk
+                            if dc:
+                                cc = dict(dc)
+                                cc.update(g.get("cons", {}))
+                                g["cons"] = cc
+                            if dp:
+                                g["pc"] = frozenset(g.get("pc", frozenset())) | dp
+                            if g != g0:
+                                chg = True
+                            nv[n0] = (pl0, g)
+                        if chg:
+                            ost.fr[fid][0] = EnumV(rv0.adt, nv)
                     if ret_state is None:
                         ret_state = ost
                     else:
@@ -1577,10 +1677,21 @@ def _same_modulo_deps(j, va):
     if isinstance(j, IntV):
         return j.lo == va.lo and j.hi == va.hi and j.bits == va.bits and j.aff == va.aff and j.sid == va.sid and j.deps <= va.deps and j.vset == va.vset
     if isinstance(j, BoolV):
-        return j.val == va.val and j.bit == va.bit and j.origin is va.origin and j.deps <= va.deps
+        return j.val == va.val and j.bit == va.bit and j.origin is va.origin and j.deps <= va.deps and _geq(j.tg, va.tg) and _geq(j.fg, va.fg)
     if isinstance(j, FloatV):
         return j.lo == va.lo and j.hi == va.hi and j.term == va.term and j.deps <= va.deps
     return False
+
+
+def _geq(g1, g2):
+    if not g1 and not g2:
+        return True
+    if not g1 or not g2:
+        return False
+    if g1.get("kb", {}) != g2.get("kb", {}) or g1.get("cons", {}) != g2.get("cons", {}) or g1.get("pc", frozenset()) != g2.get("pc", frozenset()):
+        return False
+    t1, t2 = g1.get("then", ()), g2.get("then", ())
+    return len(t1) == len(t2) and all(x[0] is y[0] and x[1] == y[1] for x, y in zip(t1, t2))
 
 
 def taint(v, deps):
@@ -1589,7 +1700,7 @@ def taint(v, deps):
     if isinstance(v, IntV):
         return v if deps <= v.deps else v._with(deps=v.deps | deps)
     if isinstance(v, BoolV):
-        return v if deps <= v.deps else BoolV(v.val, v.origin, v.deps | deps, v.term, v.bit)
+        return v if deps <= v.deps else BoolV(v.val, v.origin, v.deps | deps, v.term, v.bit, v.tg, v.fg)
     if isinstance(v, FloatV):
         return v if deps <= v.deps else FloatV(v.lo, v.hi, v.deps | deps, v.term, v.ty, v.sid)
     if isinstance(v, EnumV):
@@ -1629,6 +1740,9 @@ def _structured_const(j):
     if "arr" in j:
         items = [_structured_const(x) for x in j["arr"]]
         return None if any(x is None for x in items) else VecV(items)
+    if "struct" in j and (j["struct"].startswith("std::ops::Range") or not j["struct"].split("::")[0] in ("std", "core", "alloc", "chrono")):
+        fs = {f["name"]: _structured_const(f["v"]) for f in j.get("fields", [])}
+        return None if any(x is None for x in fs.values()) else StructV(j["struct"], fs)
     return None
 
 
